@@ -72,7 +72,7 @@ ONELINE = ('oneline_for', 'oneline_raise', 'oneline_ied', 'oneline_silent', 'one
 def required_cells(tier):
     return (['kind:' + k for k in KINDS if k != 'pv'] + ['terminated-continuation', 'tab-indented-example', 'terminated-one-liner', 'terminated-one-liner:raises', 'stack-lines', 'prose-separation',
             'indent:0', 'indent:4', 'indent:2', 'indent:8', 'both-pass', 'reindent-after-want:less',
-            'reindent-after-want:more', 'corpus:both-pass'])
+            'reindent-after-want:more', 'corpus:both-pass', 'under-a-google-header'])
 
 
 def gen_example(rng, i, defined):
@@ -386,9 +386,22 @@ def check_case(ctx, index, seed, doc_override=None):
         after_source = [k for k in after_source if k < len(doc.split('\n'))]      # the change came after the last example
     case = {'index': index, 'case_seed': seed, 'doc': doc, 'reindent_after_source': after_source,
             'print_and_value': [e['first_line'] for e in examples if e['print_and_value']]}
+    style = 'freeform'
+    if doc_override is None and index % 4 == 2 and 'prose-separation' not in feats and all(
+            ln == ln.lstrip() for ln in doc.split('\n') if ln.strip()):
+        # the examples stand under a google-style header, an empty line between, at the header's own indentation (the
+        # layout of many standard-library docstrings); collected the way the native runner does by default
+        doc = 'Example:\n\n' + doc
+        after_source = [k + 2 for k in after_source]
+        case['doc'] = doc
+        case['reindent_after_source'] = after_source
+        style = 'auto'
+        feats = set(feats) | {'under-a-google-header'}
     if doc_override is not None:
         doc = doc_override
         case['doc'] = doc
+        if doc.startswith('Example:\n'):
+            style = 'auto'
     try:
         res, Tstd = run_std(doc)
     except Exception as ex:
@@ -415,7 +428,7 @@ def check_case(ctx, index, seed, doc_override=None):
             res.attempted, doc), case, **kw)
 
     try:
-        exs, wl, printed = harness.collect(doc, style='freeform')
+        exs, wl, printed = harness.collect(doc, style=style)
     except Exception as ex:
         bad('collect-raised', 'parse_docstr_examples raised %r' % (ex,))
         return
